@@ -10,9 +10,11 @@
    carry this restriction. *)
 From Cas Require Import History.
 From CasProofs Require Import BaseProofs SMapProofs IndexProofs RangeProofs
-  StoreFS StoreInv StoreWrite StoreRead StoreHist WorldRel FaultLogic Faults.
+  StoreFS StoreInv StoreWrite StoreRead StoreHist WorldRel FaultLogic Faults PreCreate.
 From Coq Require Import ZifyBool ZifyNat ZifyN.
 Open Scope N_scope.
+
+Local Opaque all256.
 
 Section FaultHist.
   Variable H : bytes -> bytes.
@@ -339,7 +341,7 @@ Section FaultHist.
   (* from a fresh directory: open, then any history of API calls under any fault plan whose
      fault falls after the open (n counts from the beginning of the process; faults during the
      open make the open itself fail, there is no handle then) *)
-  Theorem C14_fault_contained_memory_partial : c_pre cfg = false ->
+  Theorem C14_fault_contained_memory_partial :
     exists m os w0,
       open_with_recover H cfg (init_world empty_fs None) = (Ok (m, os), w0) /\
       forall fault ops, Forall api_op ops -> NoCollide (hist_contents ops) ->
@@ -356,10 +358,10 @@ Section FaultHist.
         exists m' sgf, hd' = Some (mkHandle cfg m' os) /\
                        In sgf (possible_maps [] ops) /\ LiveF m' (wfs w') sgf.
   Proof.
-    intros Pre. destruct (open_fresh H cfg n_pos Pre) as (m & os & w0 & E & _ & L0 & _).
+    destruct (open_fresh_any H cfg n_pos) as (m & os & w0 & E & _ & _ & L0 & _).
     exists m, os, w0. split; [exact E|]. intros fault ops A NC.
     apply (C14_fault_contained_handle_partial ops m [] os (with_fault w0 fault)).
-    - cbn [with_fault wfs]. now apply Live0_LiveF.
+    - cbn [with_fault wfs]. apply Live0_LiveF. now apply (LiveP_Live0 H cfg).
     - exact A.
     - now rewrite app_nil_r.
   Qed.
@@ -408,14 +410,65 @@ Section FaultHist.
     intros i. exact (avoids_keeps _ None c (A2 i) s s' (N2 i) E).
   Qed.
 
-  Theorem open_fresh_fault : c_pre cfg = false ->
+  (* the fan-out directories under any fault plan: whatever happens every mkdir keeps P; if the
+     loop reports success, every directory of the list exists (an existing one is skipped) *)
+  Lemma mkdir_cas2_hoare : forall (P : fs -> Prop) a b, (forall d, call_keeps P (CMkdir d)) ->
+    Hoare P (mkdir_cas2 a b)
+          (fun r s => P s /\ match r with
+                             | Ok _ => has_dir s [s_cas; a] = true /\ has_dir s [s_cas; a; b] = true
+                             | Err _ => True end).
+  Proof.
+    intros P a b K. unfold mkdir_cas2.
+    eapply hoare_bind; [apply (mkdir_p_hoare P), K|].
+    intros [u|e]; [|apply hoare_ret; intros s [Ps _]; now split].
+    eapply hoare_post; [|apply (mkdir_p_hoare (fun s => P s /\ has_dir s [s_cas; a] = true))].
+    - intros [u'|e] s [[Ps D1] D2]; split; auto.
+    - apply keeps_and; [apply K|apply has_dir_keeps].
+  Qed.
+
+  Lemma mkdirs_pre_hoare : forall ds (P : fs -> Prop), (forall d, call_keeps P (CMkdir d)) ->
+    Hoare P (mkdirs_pre ds)
+          (fun r s => P s /\ match r with
+                             | Ok _ => forall i j, In (i, j) ds ->
+                                 has_dir s [s_cas; hex2 i] = true /\
+                                 has_dir s [s_cas; hex2 i; hex2 j] = true
+                             | Err _ => True end).
+  Proof.
+    induction ds as [|[i j] ds IH]; intros P K; cbn [mkdirs_pre].
+    - apply hoare_ret. intros s Ps. split; [exact Ps|]. intros i j [].
+    - eapply hoare_bind; [apply (mkdir_cas2_hoare P), K|].
+      intros [u|e]; [|apply hoare_ret; intros s [Ps _]; now split].
+      eapply hoare_post;
+        [|apply (IH (fun s => P s /\ (has_dir s [s_cas; hex2 i] = true /\
+                                      has_dir s [s_cas; hex2 i; hex2 j] = true)))].
+      + intros [u'|e] s [[Ps D] X]; split; auto.
+        intros i' j' [Y|Y]; [inversion Y; subst; exact D|now apply X].
+      + intros d. apply keeps_and; [apply K|]. apply keeps_and; apply has_dir_keeps.
+  Qed.
+
+  Lemma pre_create_all_hoare : forall (P : fs -> Prop), (forall d, call_keeps P (CMkdir d)) ->
+    Hoare P pre_create_all
+          (fun r s => P s /\ match r with Ok _ => PreDirs s | Err _ => True end).
+  Proof.
+    intros P K. unfold pre_create_all. eapply hoare_post; [|apply (mkdirs_pre_hoare _ P K)].
+    intros [u|e] s [Ps X]; split; auto. intros i j I J. apply X, in_pre_list. now split.
+  Qed.
+
+  Lemma keeps_impl : forall (F : Prop) (P : fs -> Prop) c,
+    call_keeps P c -> call_keeps (fun s => F -> P s) c.
+  Proof. intros F P c K s s' X E f. exact (K _ _ (X f) E). Qed.
+
+  (* either choice of pre_create_cas_dirs: with c_pre cfg = true a fault may hit any of the
+     mkdir calls of the fan-out tree; the open then fails with ECasDir before the settings
+     file is written *)
+  Theorem open_fresh_fault :
     Hoare (fun s => files s = []) (open_with_recover H cfg)
           (fun r s => match r with
                       | Ok (m, os) => LiveF m s []
                       | Err e => e <> EPanic
                       end).
   Proof.
-    intros Pre. unfold open_with_recover.
+    unfold open_with_recover.
     set (Emp := fun s : fs => forall q, fget s q = None \/ q = PLock).
     assert (E0 : forall s, files s = [] -> Emp s).
     { intros s Fs q. left. unfold fget. now rewrite Fs. }
@@ -448,50 +501,68 @@ Section FaultHist.
       { intros q Nq. destruct (Es q); [assumption|contradiction]. }
       rewrite (GN PSettings) by discriminate. split; [|reflexivity]. split; [|exact D].
       split; [apply GN; discriminate|intros i; apply GN; discriminate]. }
-    intros sf. apply hoare_pure. intros ->. rewrite Pre.
+    intros sf. apply hoare_pure. intros ->.
     set (P5 := fun s => NoMeta s /\ DirsUp s).
     assert (K5 : forall c, call_avoids PIndex c = true -> (forall i, call_avoids (PWal i) c = true) ->
                            call_keeps P5 c).
     { intros c A1 A2. apply keeps_and; [now apply nometa_keeps|apply dirsup_keeps]. }
-    (* 5. the settings file is written *)
+    set (PD := fun s => c_pre cfg = true -> PreDirs s).
+    assert (KD : forall c, call_keeps PD c).
+    { intros c. apply keeps_impl. apply PreDirs_keeps. }
+    (* 5. the fan-out directories (if asked for), then the settings file is written *)
     eapply hoare_bind with
-      (R := fun rs s => P5 s /\ match rs with Ok pre => pre = false | Err e => e <> EPanic end).
-    { apply inv_bind_ret.
-      eapply (inv_bind _ _ _ (fun _ => True)).
-      - apply inv_pres, pres_atomic_write; intros; apply K5; reflexivity.
-      - intros [u|e] _; apply inv_ret; [reflexivity|discriminate]. }
-    intros [pre|e]; [|apply hoare_ret; intros s [_ Ne]; exact Ne].
+      (R := fun rs s => match rs with
+                        | Ok pre => (P5 s /\ PD s) /\ pre = c_pre cfg
+                        | Err e => e <> EPanic end).
+    { eapply hoare_bind with
+        (R := fun r s => P5 s /\ match r with Ok _ => PD s | Err _ => True end).
+      { destruct (c_pre cfg) eqn:Pre.
+        - eapply hoare_post; [|apply (pre_create_all_hoare P5)].
+          + intros [u|e] s [Ps X]; split; auto. intros _. exact X.
+          + intros d. apply K5; reflexivity.
+        - apply hoare_ret. intros s Ps. split; [exact Ps|]. intros X. discriminate. }
+      intros [u|e]; [|apply hoare_ret; intros; discriminate].
+      eapply hoare_bind with (R := fun _ s => P5 s /\ PD s).
+      { eapply hoare_pre;
+          [|apply (hoare_of_pres (fun s => P5 s /\ PD s)), pres_atomic_write; intros;
+            (apply keeps_and; [apply K5; reflexivity|apply KD])].
+        intros s X. exact X. }
+      intros [u'|e]; apply hoare_ret; [intros s Ps; split; [exact Ps|reflexivity]|intros; discriminate]. }
+    intros [pre|e]; [|apply hoare_ret; intros s Ne; exact Ne].
     apply hoare_pure. intros ->.
     (* 6. Index::load on a directory without index file and segments *)
     eapply hoare_bind with
-      (R := fun rm s => DirsUp s /\
+      (R := fun rm s => (DirsUp s /\ PD s) /\
               match rm with
-              | Ok m => m = mkMem empty_istate (mkWal (0 + 1) None) false
+              | Ok m => m = mkMem empty_istate (mkWal (0 + 1) None) (c_pre cfg)
               | Err e => e <> EPanic
               end).
     { unfold index_load.
-      eapply hoare_bind with (R := fun a s => a = s /\ P5 s); [apply hoare_get_fs; auto|].
-      intros s0. apply (hoare_pre_elim (P5 s0)); [intros s [-> Ps]; exact Ps|].
-      intros [[N1 N2] _]. rewrite N1. cbv zeta. cbn [lpv empty_istate].
+      eapply hoare_bind with (R := fun a s => a = s /\ (P5 s /\ PD s)); [apply hoare_get_fs; auto|].
+      intros s0. apply (hoare_pre_elim (P5 s0 /\ PD s0)); [intros s [-> Ps]; exact Ps|].
+      intros [[[N1 N2] _] _]. rewrite N1. cbv zeta. cbn [lpv empty_istate].
       rewrite (wal_ids_nil _ N2). cbn [sort_ids fold_right replay_segments].
       change (0 + 1 - 1) with 0. rewrite N.div_0_l by lia. rewrite (N2 0).
       change (0 <? 0) with false. cbv iota.
-      eapply hoare_pre; [intros s [_ [_ D]]; exact D|].
+      eapply hoare_pre; [intros s [_ [[_ D] X]]; exact (conj D X)|].
+      assert (KDD : forall c, call_keeps (fun s => DirsUp s /\ PD s) c).
+      { intros c. apply keeps_and; [apply dirsup_keeps|apply KD]. }
       eapply (inv_bind _ _ _ (fun _ => True)).
-      - eapply (inv_bind _ _ _ (fun _ => True)); [apply inv_call, dirsup_keeps|].
-        intros [u|e] _; [apply inv_call, dirsup_keeps|now apply inv_ret].
+      - eapply (inv_bind _ _ _ (fun _ => True)); [apply inv_call, KDD|].
+        intros [u|e] _; [apply inv_call, KDD|now apply inv_ret].
       - intros [u|e] _; apply inv_ret; [reflexivity|discriminate]. }
     intros [m|e]; [|apply hoare_ret; intros s [_ Ne]; exact Ne].
     apply hoare_pure. intros ->.
     (* 7. the handle *)
-    eapply hoare_bind with (R := fun _ s => DirsUp s); [apply hoare_get_fs; auto|].
-    intros s0. apply hoare_ret. intros s [D1 D2]. constructor.
+    eapply hoare_bind with (R := fun _ s => DirsUp s /\ PD s); [apply hoare_get_fs; auto|].
+    intros s0. apply hoare_ret. intros s [[D1 D2] X]. constructor.
     - exact I.
     - reflexivity.
     - apply C12_empty.
     - intros a b [].
     - intros k c [].
-    - split; [exact D1|]. split; [exact D2|]. discriminate.
+    - split; [exact D1|]. split; [exact D2|]. cbn [mpre]. intros Pm h Lh Bh.
+      apply (PreDirs_WfDirs s (X Pm)). now split.
     - cbn [mwal nextv]. lia.
   Qed.
 
@@ -510,7 +581,7 @@ Section FaultHist.
      fails (reported, no panic; there is no handle) or the history is contained as above.
      PARTIAL: one process lifetime, no reopen (F4). *)
   Theorem C14_from_fresh_any_fault_partial : forall fault ops,
-    c_pre cfg = false -> Forall api_op ops -> NoCollide (hist_contents ops) ->
+    Forall api_op ops -> NoCollide (hist_contents ops) ->
     let '((outs, hd'), w') := run_hist H empty_fs fault (OpOpen cfg false :: ops) in
     (exists e, e <> EPanic /\ outs = OutErr e :: map (fun _ => OutClosed) ops /\ hd' = None) \/
     (exists os outs1, outs = OutOpened os :: outs1 /\
@@ -518,8 +589,8 @@ Section FaultHist.
        exists m' sgf, hd' = Some (mkHandle cfg m' os) /\
                       In sgf (possible_maps [] ops) /\ LiveF m' (wfs w') sgf).
   Proof.
-    intros fault ops Pre A NC. unfold run_hist. cbn [run_ops step]. unfold bind at 1. unfold bind at 1.
-    pose proof (open_fresh_fault Pre (init_world empty_fs fault) eq_refl) as O.
+    intros fault ops A NC. unfold run_hist. cbn [run_ops step]. unfold bind at 1. unfold bind at 1.
+    pose proof (open_fresh_fault (init_world empty_fs fault) eq_refl) as O.
     destruct (open_with_recover H cfg (init_world empty_fs fault)) as [[[m os]|e] w1];
       cbn [fst snd ret] in *.
     - unfold bind at 1.
